@@ -5,16 +5,19 @@ from .. import dump
 
 PID = "C11"
 MANIFEST = {
-    "text": "Theorems over the transcribed tokenizer and parser, for EVERY text, start position and source: no Rust panic site is reachable (the unreachable!() after an atom ending is proved unreachable from the loop invariant), every token or error consumes at least one character (so the parser's token loop is total), every blank text of any length reads as `nothing`; plus kernel-computed witnesses of the places where the unchanged reader departs from the grammar. The transcription is tied to src/native/read/mod.rs by EXHAUSTIVE comparison of the complete result of `read` (status, datum with the metadata name/line/column of every atom and string, rest, line, column, error location and message) on all strings up to length 4 (quick) / 5 (thorough) over a 14-character delimiter-rich alphabet, random longer strings, a grid of start positions; and the implementation is compared with an independent implementation of the grammar of DESIGN.md 5.C11 (status, datum, shortest prefix, rest, positions).",
+    "text": "Theorems over the transcribed tokenizer and parser, for EVERY text, start position and source: no Rust panic site is reachable (the unreachable!() after an atom ending is proved unreachable from the loop invariant), every token or error consumes at least one character (so the parser's token loop is total), every blank text of any length reads as `nothing`; POSITIONS ARE EXACT for every text: the rest returned with a token, an error or a datum is a suffix of the input and the position returned is the start position advanced over exactly the consumed characters (errors: at the offending character, 1-based column); every printed datum of the readable domain is accepted and reads back as itself (theorem C10_datum_round_trip); plus kernel-computed witnesses of the places where the unchanged reader departs from the grammar. The transcription is tied to src/native/read/mod.rs by EXHAUSTIVE comparison of the complete result of `read` (status, datum with the metadata name/line/column of every atom and string, rest, line, column, error location and message) on all strings up to length 4 (quick) / 5 (thorough) over a 14-character delimiter-rich alphabet, random longer strings, a grid of start positions; and the implementation is compared with an independent implementation of the grammar of DESIGN.md 5.C11 (status, datum, shortest prefix, rest, positions).",
     "note": "The grammar-level statements (shortest prefix, incomplete iff extendable, error stable) are decided by the independent reference reader on the enumerated/random strings, not yet by theorems. Grapheme clusters of more than one code point are not modelled (the alphabet has none). Known deviations of the unchanged reader from the grammar are listed as open findings by input class. Trusted: Coq kernel; transcription (exhaustive agreement); char::is_whitespace / is_ascii_digit tables (complete sweep each run).",
-    "technique": "Coq totality proof of the transcribed reader (induction over the text) + exhaustive small-scope differential check + independent grammar reference",
+    "technique": "Coq totality and exact-position proofs of the transcribed reader (induction over the text) + exhaustive small-scope differential check + independent grammar reference",
 }
 TARGETS = ["Properties/C11.v", "Eval/Run.v"]
-IMPORTS = ["Data.Reader", "Data.ReaderProofs", "Properties.C11"]
+IMPORTS = ["Data.Reader", "Data.ReaderProofs", "Data.PositionProofs", "Properties.C11"]
 THEOREMS = [
     ("C11_tokenizer_total", "forall inp inv st buf bl cur, tinv inp inv st buf -> not_panic (tok inp inv st buf bl cur) /\\ strictly_shorter (tok inp inv st buf bl cur) inp"),
     ("C11_read_never_panics", "forall src inp inv line col, rd_not_panic (read_text src inp inv line col)"),
     ("C11_blank_is_nothing", "forall src t line col, blank_from false t = true -> read_text src t false line col = inr ENothing"),
+    ("C11_token_positions_exact", "forall inp inv st buf bl cur t, tok inp inv st buf bl cur = Some (inl t) -> exists consumed, inp = consumed ++ trest t /\\ tcur t = advance cur consumed /\\ consumed <> []"),
+    ("C11_error_positions_exact", "forall inp inv st buf bl cur m l rest a b, tok inp inv st buf bl cur = Some (inr (EError m l rest a b)) -> exists consumed, inp = consumed ++ rest /\\ l = advance cur consumed /\\ consumed <> [] /\\ (let '(Loc x y) := l in a = x /\\ b = y + 1)"),
+    ("C11_read_positions_exact", "forall src inp inv line col v rest l, read_text src inp inv line col = inl (v, rest, l) -> exists consumed, inp = consumed ++ rest /\\ l = advance (Loc line (col - 1)) consumed /\\ consumed <> []"),
     ("C11_known_deviations", """rd_status (read_text SrcStdin (s "'") false 1 1) = "nothing" /\\ rd_status (read_text SrcStdin (s "%") false 1 1) = "nothing" /\\ rd_status (read_text SrcStdin [c_dq] false 1 1) = "nothing" /\\ match read_text SrcStdin (s "''a") false 1 1, read_text SrcStdin (s "'a") false 1 1 with | inl (v1, _, _), inl (v2, _, _) => strip v1 = strip v2 | _, _ => False end /\\ match read_text SrcStdin (s "(a ')") false 1 1, read_text SrcStdin (s "'(a)") false 1 1 with | inl (v1, _, _), inl (v2, _, _) => strip v1 = strip v2 | _, _ => False end /\\ match read_text SrcStdin (s "% a") false 1 1, read_text SrcStdin (s "a") false 1 1 with | inl (v1, _, _), inl (v2, _, _) => strip v1 = strip v2 | _, _ => False end"""),
 ]
 
